@@ -63,7 +63,8 @@ Record InvW (s : st) : Prop := {
   (* a registered SendFuture holds its item *)
   w_item : forall f x, getF f s = Some x -> f_recv x = false -> f_reg x = true -> f_item x <> None;
   (* a receive-side waiter is unlinked in the same critical section that marks it SUCCESS *)
-  w_arq_st : forall f w x, In (f, w) (arq s) -> getF f s = Some x -> is_success (f_state x) = false
+  w_arq_st : forall f w x, In (f, w) (arq s) -> getF f s = Some x ->
+                           is_success (f_state x) = false /\ (f_done x = false -> f_reg x = true)
 }.
 
 Record InvK (s : st) : Prop := {
@@ -653,7 +654,8 @@ Proof.
       + apply (w_item0 f x Hg); assumption.
       + eapply w_item0; eauto.
     - intros f1 w1 y Hi Hy. change (getF f1 (setF f x' s) = Some y) in Hy.
-      getF_cases Hy; [reflexivity|]. eapply w_arq_st0; eauto. }
+      getF_cases Hy; [|eapply w_arq_st0; eauto].
+      split; [reflexivity|]. exact (proj2 (w_arq_st0 f w1 x Hi Hg)). }
   assert (Hcnt : forall P, (cnt P (fs s') + b2n (P x) = cnt P (fs s) + b2n (P x'))%nat).
   { intros P. subst s'. apply cnt_setF; [apply (w_fnd s HW) | exact Hg]. }
   split; [|split; [exact HWs|]].
@@ -848,7 +850,7 @@ Lemma InvW_upd f x x' arq' asq' s :
   (rc s = 0 -> In f (akeys asq') -> is_waiting (f_state x') = false) ->
   (t06 (tn s) = false -> In f (akeys arq') -> f_reg x' = true) ->
   (f_recv x' = false -> f_reg x' = true -> f_item x' <> None) ->
-  (In f (akeys arq') -> is_success (f_state x') = false) ->
+  (In f (akeys arq') -> is_success (f_state x') = false /\ (f_done x' = false -> f_reg x' = true)) ->
   InvW (with_arq arq' (with_asq asq' (setF f x' s))).
 Proof.
   intros HW Hg Er Eh El Hreg Hnd1 Hnd2 Hq1 Hq2 Hk1 Hk2 Hwq Hs0 Hr0 Ht6 Hit Hst.
